@@ -128,7 +128,35 @@ def run_time(ctx):
         ctx.ok("time-sliding", "prefix-eviction")
     else:
         ctx.violation("time-sliding", "prefix-eviction", "eviction is not a drain of a prefix 0..k of the buffer", site=h["span"])
-    rels = [canon_rel(x) for x in H.walk(h["body"]) if x.get("k") == "bin" and x["op"] in ("Ge", "Gt", "Le", "Lt")]
+    # locals are identified by role, not by name: event_time = a let bound to `<event>.timestamp`; cutoff = a let bound to
+    # `<event_time> - self.window_size`; last = the binding of `Some(..)` in a match on `self.last_emit`
+    ren = {}
+    for s_ in H.lets(h["body"]):
+        if s_["pat"]["k"] != "bind" or s_.get("init") is None:
+            continue
+        i_ = H.strip(s_["init"])
+        if i_.get("k") == "field" and i_["name"] == "timestamp":
+            ren[s_["pat"]["name"]] = "event_time"
+    for s_ in H.lets(h["body"]):
+        if s_["pat"]["k"] != "bind" or s_.get("init") is None:
+            continue
+        i_ = H.strip(s_["init"])
+        if i_.get("k") == "bin" and i_["op"] == "Sub" and H.strip(i_["r"]).get("k") == "field" and H.strip(i_["r"])["name"] == "window_size" and ren.get(H.local_name(i_["l"])) == "event_time":
+            ren[s_["pat"]["name"]] = "cutoff"
+    for m_ in H.walk(h["body"]):
+        if m_.get("k") == "match" and H.strip(m_["scrut"]).get("k") == "field" and H.strip(m_["scrut"])["name"] == "last_emit":
+            for a_ in m_["arms"]:
+                for nm in H.pat_binds(a_["pat"]):
+                    ren[nm] = "last"
+    import re as _re
+
+    def role(txt):
+        for k_, v_ in ren.items():
+            if k_ != v_:
+                txt = _re.sub(r"\b%s\b" % _re.escape(k_), v_, txt)
+        return txt
+    crel = lambda x: tuple(role(y) for y in canon_rel(x))
+    rels = [crel(x) for x in H.walk(h["body"]) if x.get("k") == "bin" and x["op"] in ("Ge", "Gt", "Le", "Lt")]
     emit = [r for r in rels if "slide_interval" in r[1] + r[2]]
     if emit and emit[0][1] == "event_time" and "last" in emit[0][2]:
         ctx.ok("time-sliding", "slide-test", "%s %s %s" % (emit[0][1], emit[0][0], emit[0][2]))
@@ -136,13 +164,13 @@ def run_time(ctx):
     else:
         ctx.violation("time-sliding", "slide-test", "emission is not decided by comparing event_time with last_emit + slide_interval (%s)" % emit, site=h["span"])
     evict = [r for r in rels if "cutoff" in r[1] + r[2]]
-    cut = [s for s in H.lets(h["body"]) if s["pat"]["k"] == "bind" and s["pat"]["name"] == "cutoff"]
+    cut = [s for s in H.lets(h["body"]) if s["pat"]["k"] == "bind" and ren.get(s["pat"]["name"]) == "cutoff"]
     # direction of the eviction predicate: a `position`/`find` closure must describe the first RETAINED event
     # (timestamp >= cutoff), a `partition_point`/`take_while` closure the EXPIRED prefix (timestamp < cutoff)
     wrong_dir = None
     for mc in H.walk(h["body"]):
         if mc.get("k") == "mcall" and mc["method"] in ("position", "find", "partition_point", "take_while", "skip_while"):
-            for r in (canon_rel(x) for a in mc["args"] for x in H.walk(a) if x.get("k") == "bin" and x["op"] in ("Ge", "Gt", "Le", "Lt")):
+            for r in (crel(x) for a in mc["args"] for x in H.walk(a) if x.get("k") == "bin" and x["op"] in ("Ge", "Gt", "Le", "Lt")):
                 if "cutoff" not in r[1] + r[2]:
                     continue
                 retained_pred = "cutoff" in r[2]  # (>=|>, timestamp, cutoff)
@@ -152,7 +180,7 @@ def run_time(ctx):
     if wrong_dir:
         ctx.violation("time-sliding", "cutoff", "%s(..) over the buffer tests `%s %s %s`: the predicate selects the wrong side of the cutoff (events inside the window are evicted / expired ones kept)" % (
             wrong_dir[0], wrong_dir[1][1], wrong_dir[1][0], wrong_dir[1][2]), site=h["span"])
-    elif evict and cut and norm(cut[0]["init"]) == "(event_time - window_size)":
+    elif evict and cut and role(norm(cut[0]["init"])) == "(event_time - window_size)":
         ctx.ok("time-sliding", "cutoff", "retain iff %s %s %s, cutoff = event_time - window_size" % (evict[0][1], evict[0][0], evict[0][2]))
     else:
         ctx.violation("time-sliding", "cutoff", "eviction cutoff is not event_time - window_size compared with the events' timestamps", site=h["span"])
